@@ -192,11 +192,11 @@ func c14Run(r *simkit.Run) {
 
 func init() {
 	simkit.Register(&simkit.Harness{
-		ID:   "C14",
-		Run:  c14Run,
-		Real: []string{"base.BatchIsValidMaps", "base.IsValidMaps", "base.IsValidManifests", "util.BatchWork / BaseJobWorker"},
-		Stub: []string{"remote: a harness function serving signed-less dummy block maps (base.DummyBlockMap) with per-request latency on the fake clock", "single breaks injected by the harness"},
-		Rule: "each run draws a chain of 1-40 maps (thorough: up to 200) starting at genesis or later, a batch limit 1..50, per-request latencies (so arrival order inside a batch is the tape's) and one break or none: wrong previous hash, a map served for another height, two swapped maps, a remote error. Validation must succeed exactly when the served chain is linked; on success the callback saw every height exactly once. distinct = event-log hash",
+		ID:          "C14",
+		Run:         c14Run,
+		Real:        []string{"base.BatchIsValidMaps", "base.IsValidMaps", "base.IsValidManifests", "util.BatchWork / BaseJobWorker"},
+		Stub:        []string{"remote: a harness function serving signed-less dummy block maps (base.DummyBlockMap) with per-request latency on the fake clock", "single breaks injected by the harness"},
+		Rule:        "each run draws a chain of 1-40 maps (thorough: up to 200) starting at genesis or later, a batch limit 1..50, per-request latencies (so arrival order inside a batch is the tape's) and one break or none: wrong previous hash, a map served for another height, two swapped maps, a remote error. Validation must succeed exactly when the served chain is linked; on success the callback saw every height exactly once. distinct = event-log hash",
 		Assumptions: []string{"a wrong previous hash in the very first map of a genesis-started range has nothing to be compared with and is not counted as a break"},
 	})
 }
